@@ -148,6 +148,13 @@ class Reporter:
             except OSError:
                 pass
 
+        if not new_viol and not os.environ.get("VP_NO_EVIDENCE"):
+            stale = os.path.join(os.environ.get("VP_EVIDENCE_DIR") or os.path.join(VERIF, "evidence"), "%s.violation.json" % prop)
+            if os.path.isfile(stale):
+                try:
+                    os.remove(stale)  # a replay file describes the last failing run only
+                except OSError:
+                    pass
         if undec or self.errors:
             code = 2
         elif new_viol:
